@@ -343,9 +343,11 @@ func (n *vgLocNames) id(name string) int32 {
 
 func vgLoc(names *vgLocNames, name string, path ...int32) *descriptorpb.SourceCodeInfo_Location {
 	return &descriptorpb.SourceCodeInfo_Location{
-		Path:            append([]int32(nil), path...),
-		Span:            []int32{names.id(name), 0, 0},
-		LeadingComments: vgS(name),
+		Path:                    append([]int32(nil), path...),
+		Span:                    []int32{names.id(name), 0, 0},
+		LeadingComments:         vgS(name),
+		TrailingComments:        vgS("after " + name),
+		LeadingDetachedComments: []string{"detached " + name},
 	}
 }
 
@@ -504,6 +506,15 @@ func vgCheckSourceInfo(names *vgLocNames, fd *descriptorpb.FileDescriptorProto, 
 		if loc.LeadingComments != nil {
 			verifAssert(loc.GetLeadingComments() == want, "comments are not altered")
 		}
+		if loc.TrailingComments != nil {
+			verifAssert(loc.GetTrailingComments() == "after "+want, "trailing comments are not altered")
+		}
+		for _, d := range loc.GetLeadingDetachedComments() {
+			verifAssert(d == "detached "+want, "detached comments are not altered")
+		}
+		// comments are kept or dropped together (dropped only for a message reduced to a namespace)
+		verifAssert((loc.LeadingComments == nil) == (loc.TrailingComments == nil) && (loc.LeadingComments == nil) == (len(loc.GetLeadingDetachedComments()) == 0),
+			"leading, trailing and detached comments are kept or dropped together")
 	}
 	// imports that were reachable only through a public import are new in this file and have no location
 	newDeps := 0
@@ -604,6 +615,53 @@ func vgFingerprint(image bufimage.Image) []string {
 			for _, m := range s.GetMethod() {
 				out = append(out, "method "+prefix+s.GetName()+"."+m.GetName()+" "+m.GetInputType()+" "+m.GetOutputType())
 			}
+		}
+	}
+	return out
+}
+
+func vgItoa(v int32) string {
+	if v < 0 {
+		return "-" + vgItoa(-v)
+	}
+	if v < 10 {
+		return string(rune('0' + v))
+	}
+	return vgItoa(v/10) + string(rune('0'+v%10))
+}
+
+// vgDeepFingerprint: vgFingerprint plus list lengths and every source location (path, span, comments) - everything
+// FilterImage could touch in a descriptor built by these harnesses.
+func vgDeepFingerprint(image bufimage.Image) []string {
+	out := vgFingerprint(image)
+	for _, f := range image.Files() {
+		fd := f.FileDescriptorProto()
+		line := "lists " + fd.GetName() + " " + vgItoa(int32(len(fd.MessageType))) + " " + vgItoa(int32(len(fd.EnumType))) + " " +
+			vgItoa(int32(len(fd.Service))) + " " + vgItoa(int32(len(fd.Extension))) + " " + vgItoa(int32(len(fd.Dependency)))
+		for _, idx := range fd.GetPublicDependency() {
+			line += " pub" + vgItoa(idx)
+		}
+		for _, idx := range fd.GetWeakDependency() {
+			line += " weak" + vgItoa(idx)
+		}
+		out = append(out, line)
+		for _, loc := range fd.GetSourceCodeInfo().GetLocation() {
+			l := "loc"
+			for _, p := range loc.GetPath() {
+				l += " " + vgItoa(p)
+			}
+			l += " span"
+			for _, p := range loc.GetSpan() {
+				l += " " + vgItoa(p)
+			}
+			if loc.LeadingComments != nil {
+				l += " leading=" + loc.GetLeadingComments()
+			}
+			if loc.TrailingComments != nil {
+				l += " trailing=" + loc.GetTrailingComments()
+			}
+			l += " detached=" + vgItoa(int32(len(loc.GetLeadingDetachedComments())))
+			out = append(out, l)
 		}
 	}
 	return out
